@@ -163,10 +163,27 @@ for set_type in (set, frozenset):
       unflatten_fn=lambda values, _, set_type=set_type: set_type(values),
       path_elements_fn=lambda x: tuple(SetElement() for _ in x))
 
+def _flatten_bytes(value: bytes):
+  # latin-1 maps every byte to the code point with the same number, so this is
+  # lossless. (`raw_unicode_escape` additionally interprets `\\uXXXX` sequences
+  # in the bytes, which silently turned b'\\u0041' into b'A'.)
+  return (value.decode('latin-1'),), None
+
+
+def _unflatten_bytes(values, metadata) -> bytes:
+  del metadata
+  try:
+    return values[0].encode('latin-1')
+  except UnicodeEncodeError:
+    # Documents written with the older `raw_unicode_escape` encoding may
+    # contain code points above 0xFF.
+    return values[0].encode('raw_unicode_escape')
+
+
 register_node_traverser(
     bytes,
-    flatten_fn=lambda x: ((x.decode('raw_unicode_escape'),), None),
-    unflatten_fn=lambda values, _: values[0].encode('raw_unicode_escape'),
+    flatten_fn=_flatten_bytes,
+    unflatten_fn=_unflatten_bytes,
     path_elements_fn=lambda x: (IdentityElement(),),
 )
 
